@@ -407,7 +407,7 @@ PROPERTIES = {
         level_note="Relies on all code-memory writes going through ptr::copy_nonoverlapping: any other dereference of a simulated (integer) address is reported by Kani's pointer checks as a failed check and makes the run inconclusive, so the assumption is checked, not trusted. Mappings the model does not know (shared libraries) are outside.",
         quick=["x64_core_redirect", "x64_core_boolean", "x64_api_hist_l1", "x64_alloc_any_4k", "arm_core_a32", "arm_core_t32_misaligned"],
         premises=["premise_only_static_is_lock"],
-        thorough=["x64_core_redirect", "x64_core_boolean", "x64_api_hist_l1", "x64_api_hist_l2", "x64_api_hist_l3", "x64_api_hist_l1x2", "x64_alloc_any_4k", "x64_alloc_layout_16m", "a64_core_redirect", "a64_alloc_any_4k",
+        thorough=["x64_core_redirect", "x64_core_boolean", "x64_api_hist_l1", "x64_api_hist_l2", "x64_api_hist_l3", "x64_alloc_any_4k", "x64_alloc_layout_16m", "a64_core_redirect", "a64_alloc_any_4k",
                   "arm_core_a32", "arm_core_t32_aligned", "arm_core_t32_misaligned", "win_core_redirect"],
         outside=["executable mappings the model does not register (shared libraries)", "histories beyond L=3"],
     ),
